@@ -59,6 +59,10 @@ func (c *cliStream) Recv() (*repResp, error) {
 func (c *cliStream) Send(r *repReq) error {
 	c.mu.Lock()
 	gate := c.gate
+	if gate != nil && len(c.sent) > 0 && r.GetSyncReplicationState() != nil && c.sent[len(c.sent)-1].GetSyncReplicationState() != nil &&
+		r.GetSyncReplicationState().GetInclusiveLowWatermark() == c.sent[len(c.sent)-1].GetSyncReplicationState().GetInclusiveLowWatermark() {
+		gate = nil // a slow reader refuses only what is new to it: the repeated watermark of a keep-alive still gets through
+	}
 	c.mu.Unlock()
 	if gate != nil {
 		select {
